@@ -5,6 +5,7 @@ import (
 	"os"
 	"path/filepath"
 	"strings"
+	"sync"
 
 	"lndlint/internal/an"
 )
@@ -22,50 +23,68 @@ type MutantResult struct {
 // RunMutants applies each witness mutant of s in memory and re-runs the
 // property's obligations on the mutated program.
 func RunMutants(s *Spec, repo string, load LoadFn, only string) []MutantResult {
-	var out []MutantResult
+	var sel []Mutant
 	for _, m := range s.Mutants {
-		if only != "" && !strings.Contains(m.Name, only) {
-			continue
+		if only == "" || strings.Contains(m.Name, only) {
+			sel = append(sel, m)
 		}
-		res := MutantResult{Name: m.Name, File: m.File, Expect: m.Expect}
-		path := filepath.Join(repo, m.File)
-		src, err := os.ReadFile(path)
-		if err != nil {
-			res.Status, res.Detail = "stale", err.Error()
-			out = append(out, res)
-			continue
-		}
-		if n := strings.Count(string(src), m.Old); n != 1 {
-			res.Status, res.Detail = "stale", fmt.Sprintf("anchor text occurs %d times", n)
-			out = append(out, res)
-			continue
-		}
-		mut := strings.Replace(string(src), m.Old, m.New, 1)
-		prog, _, err := load(repo, s, nil, nil, map[string][]byte{path: []byte(mut)})
-		if err != nil {
-			res.Status, res.Detail = "load-error", err.Error()
-			out = append(out, res)
-			continue
-		}
-		run, _ := an.NewRun(s.ID, "mutant", prog, "")
-		s.Run(run)
-		for _, o := range run.Obls {
-			if o.Status == "VIOLATED" {
-				res.KilledBy = append(res.KilledBy, o.ID)
-			}
-		}
-		res.Status = "SURVIVED"
-		for _, k := range res.KilledBy {
-			if strings.Contains(k, m.Expect) {
-				res.Status = "killed"
-			}
-		}
-		if res.Status == "SURVIVED" && len(res.KilledBy) > 0 {
-			res.Detail = "violations reported, but not by the expected obligation"
-		}
-		out = append(out, res)
 	}
+	out := make([]MutantResult, len(sel))
+	sem := make(chan struct{}, 6)
+	var wg sync.WaitGroup
+	for i, m := range sel {
+		wg.Add(1)
+		go func(i int, m Mutant) {
+			defer wg.Done()
+			sem <- struct{}{}
+			defer func() { <-sem }()
+			out[i] = runMutant(s, repo, load, m)
+		}(i, m)
+	}
+	wg.Wait()
 	return out
+}
+
+func runMutant(s *Spec, repo string, load LoadFn, m Mutant) (res MutantResult) {
+	res = MutantResult{Name: m.Name, File: m.File, Expect: m.Expect}
+	defer func() {
+		if x := recover(); x != nil {
+			res.Status, res.Detail = "load-error", fmt.Sprint("panic: ", x)
+		}
+	}()
+	path := filepath.Join(repo, m.File)
+	src, err := os.ReadFile(path)
+	if err != nil {
+		res.Status, res.Detail = "stale", err.Error()
+		return
+	}
+	if n := strings.Count(string(src), m.Old); n != 1 {
+		res.Status, res.Detail = "stale", fmt.Sprintf("anchor text occurs %d times", n)
+		return
+	}
+	mut := strings.Replace(string(src), m.Old, m.New, 1)
+	prog, _, err := load(repo, s, nil, nil, map[string][]byte{path: []byte(mut)})
+	if err != nil {
+		res.Status, res.Detail = "load-error", err.Error()
+		return
+	}
+	run, _ := an.NewRun(s.ID, "mutant", prog, "")
+	s.Run(run)
+	for _, o := range run.Obls {
+		if o.Status == "VIOLATED" {
+			res.KilledBy = append(res.KilledBy, o.ID)
+		}
+	}
+	res.Status = "SURVIVED"
+	for _, k := range res.KilledBy {
+		if strings.Contains(k, m.Expect) {
+			res.Status = "killed"
+		}
+	}
+	if res.Status == "SURVIVED" && len(res.KilledBy) > 0 {
+		res.Detail = "violations reported, but not by the expected obligation"
+	}
+	return
 }
 
 func init() {
